@@ -122,6 +122,8 @@ type vfProp struct {
 	maxSteps int
 	// simplify (optional) adds property-specific shrink candidates.
 	simplify func(sc *vfScenario) []*vfScenario
+	// valid (optional) rejects shrink candidates the oracle is not defined for.
+	valid func(sc *vfScenario) bool
 }
 
 var vfProps = map[string]*vfProp{}
@@ -319,6 +321,16 @@ func vfCandidates(p *vfProp, sc *vfScenario) []*vfScenario {
 	}
 	if p.simplify != nil {
 		out = append(out, p.simplify(sc)...)
+	}
+	if p.valid != nil {
+		k := 0
+		for _, c := range out {
+			if p.valid(c) {
+				out[k] = c
+				k++
+			}
+		}
+		out = out[:k]
 	}
 	return out
 }
